@@ -1245,6 +1245,11 @@ func (pc *PartitionContext) UpdateAllocation(alloc *objects.Allocation) (request
 		}
 
 		// new allocation already assigned
+		// a failing application is only waiting for its placeholders to be released before it is removed: anything
+		// added to it now would be left behind on the node when the application moves to Failed
+		if app.IsFailing() {
+			return false, false, fmt.Errorf("application %s is failing, allocation %s not accepted", applicationID, allocationKey)
+		}
 		log.Log(log.SchedPartition).Info("handling existing allocation",
 			zap.String("partitionName", pc.Name),
 			zap.String("appID", applicationID),
